@@ -11,7 +11,7 @@ for i in range(1, 21):
         continue
     if not os.path.exists(os.path.join(ROOT, "lean", "Bcder", "Props", p + ".lean")):
         continue
-    lines = ["import Bcder.Props.%s" % p]
+    lines = ["import Bcder.Props.%s" % p] + ["import Bcder.Props.%s" % x for x in getattr(m, "EXTRA_MODULES", [])]
     for t in m.THEOREMS:
         full = t if t.startswith("Bcder.") else "Bcder.Props.%s.%s" % (p, t)
         lines.append("#print axioms %s" % full)
